@@ -74,7 +74,7 @@ func fieldOption(kind int, path string) (ucfg.Option, int) {
 	}
 }
 
-var c16Paths = []string{"a", "a.b", "b", "x", "**.b", "a.l", "*.b"}
+var c16Paths = []string{"a", "a.b", "b", "x", "**.b", "a.l", "*.b", "p.1", "p.1.k"}
 
 // c16Tree: {a: {b: L1, l: L2, c: {b: L3}}, b: L4, q: {b: L5}} where every L is a list
 // (so every policy is observable) of chosen length.
@@ -93,7 +93,13 @@ func c16Tree(name string) *Node {
 	return nDict().
 		set("a", nDict().set("b", c16List(name+".a.b", 2)).set("l", nList(nDict().set("b", c16List(name+".a.l.0.b", 1)))).set("c", nDict().set("b", c16List(name+".a.c.b", 1)))).
 		set("b", c16List(name+".b", 2)).
-		set("q", nDict().set("b", c16List(name+".q.b", 1)))
+		set("q", nDict().set("b", c16List(name+".q.b", 1))).
+		// a list of objects: a policy for one index must not reach the elements behind it
+		set("p", nList(
+			nDict().set("k", nDict().set(name, nUint(0))),
+			nDict().set("k", nDict().set(name, nUint(1))),
+			nDict().set("k", nDict().set(name, nUint(2))),
+			nDict().set("k", nDict().set(name, nUint(3)))))
 }
 
 // H_C16_field: global policy + one or two per-field options against the model in which the
@@ -102,10 +108,7 @@ func H_C16_field() {
 	a := c16Tree("A")
 	b := c16Tree("B")
 	global := verif.Choice("global", nPolicies)
-	nOpts := 1
-	if verif.Tier() > 0 {
-		nOpts = 1 + verif.Choice("nopts", 2)
-	}
+	nOpts := 1 + verif.Choice("nopts", 2)
 	opts := []ucfg.Option{ucfg.PathSep(".")}
 	opts = append(opts, polOpts(global)...)
 	var fos []fieldOpt
